@@ -393,6 +393,11 @@ def run(ctx):
           "fun mo im => match mo with SpHeuristic => Nat.eqb (length im) 1 "
           "| SpList ys => list_eqb (list_eqb Bool.eqb) (sort_by row_leb ys) im end",
           'nat * zmat * list Z * bool * bool', 'list row', oracle_signs)
+    suite(ctx, 'signs_generated', cases,
+          "fun x => let '(n, al, mo, h, a) := x in gen_variable_sign_patterns n al mo h a",
+          "fun mo im => match mo with SpHeuristic => Nat.eqb (length im) 1 "
+          "| SpList ys => list_eqb (list_eqb Bool.eqb) (sort_by row_leb ys) im end",
+          'nat * zmat * list Z * bool * bool', 'list row', oracle_signs, header=GEN_HEADER)
     # re-type the signs suite output: model returns sp_result, impl a list -> handled by custom eqb above
 
 
